@@ -552,3 +552,60 @@ func (s *Sym) atomStr(id AtomID) string {
 	}
 	return at.Name + "(" + strings.Join(xs, ", ") + ")"
 }
+
+// Rewrite rebuilds a bottom-up; f receives each atom with its rebuilt
+// arguments and returns its replacement (nil = rebuild with MakeFn / keep).
+func (a *RF) Rewrite(f func(at *Atom, args []*RF) *RF) *RF {
+	s := a.S
+	memo := map[AtomID]*RF{}
+	var rf func(r *RF) *RF
+	atomVal := func(id AtomID) *RF {
+		if v, ok := memo[id]; ok {
+			return v
+		}
+		at := s.atoms[id]
+		args := make([]*RF, len(at.Args))
+		changed := false
+		for i, x := range at.Args {
+			args[i] = rf(x)
+			if args[i] != x {
+				changed = true
+			}
+		}
+		res := f(at, args)
+		if res == nil {
+			if changed {
+				res = s.MakeFn(at.Name, args...)
+			} else {
+				res = s.atomRF(id)
+			}
+		}
+		memo[id] = res
+		return res
+	}
+	poly := func(p *Poly) (*RF, bool) {
+		acc := s.Int(0)
+		changed := false
+		for _, t := range p.terms {
+			x := s.Const(t.coef)
+			for i, v := range t.vars {
+				av := atomVal(v)
+				if at := av.SingleAtom(); at == nil || at.ID != v {
+					changed = true
+				}
+				x = x.Mul(av.Pow(t.exps[i]))
+			}
+			acc = acc.Add(x)
+		}
+		return acc, changed
+	}
+	rf = func(r *RF) *RF {
+		n, c1 := poly(r.N)
+		d, c2 := poly(r.D)
+		if !c1 && !c2 {
+			return r
+		}
+		return n.Div(d)
+	}
+	return rf(a)
+}
